@@ -220,6 +220,10 @@ class TermBuilder(object):
                 if r.const is not None and r.const[0] is None:
                     return ('none', l, pol)
                 return ('eq', l, r) if pol else ('ne', l, r)
+            if isinstance(op, (ast.Eq, ast.NotEq)) and r.const is not None and r.const[0] is None:
+                return ('none', l, isinstance(op, ast.Eq))          # x == None / x != None
+            if isinstance(op, (ast.Eq, ast.NotEq)) and l.const is not None and l.const[0] is None:
+                return ('none', r, isinstance(op, ast.Eq))
             if isinstance(op, ast.Eq):
                 return ('eq', l, r)
             if isinstance(op, ast.NotEq):
